@@ -78,6 +78,8 @@ def main():
             bad('code not below cif_nerr'); continue
         if not msg.strip():
             bad('empty message'); continue
+        if len(msg) >= 80:
+            bad('message fills its 80-byte row: it is not NUL-terminated'); continue
         others = [m2 for (n2, n_) in codes if n_ != n and 0 <= n_ < nerr for m2 in [lst[n_]] if m2 == msg]
         if others:
             bad('message shared with another code')
